@@ -626,6 +626,10 @@ func runC13Migrate(s *kernel.Sim) {
 		}
 	}
 	nNonce := s.Choose("nnonce", 40)
+	if s.Choose("manynonces", 3) == 0 {
+		// more keys than the iterator prefetches at once (badger recycles its item buffers)
+		nNonce = []int{99, 100, 101, 150, 257, 400, 1000}[s.Choose("nnonce.big", 7)]
+	}
 	for i := 0; i < nNonce; i++ {
 		nonce := time.Now().UnixNano() - int64(i)
 		put("vip:nonce:"+strings.Repeat("a", 1+s.Choose("idlen", 130))+fmt.Sprint(i), &nonce)
